@@ -171,7 +171,7 @@ func ToChannel[T any](size int) func(Observable[T]) Observable[<-chan Notificati
 			// But on empty source, the destination.CompleteWithContext() might be
 			// called before the goroutine is started.
 			verifToChannelPark()
-			destination.NextWithContext(context.TODO(), ch)
+			destination.NextWithContext(subscriberCtx, ch)
 
 			return func() {
 				subscriptions.Unsubscribe()
